@@ -20,6 +20,50 @@ def queue_field_of_call(P, fn, call):
     return None
 
 
+def empty_queue_guard(P, fn, guard, taken):
+    """a condition known to hold -> the node-state queue field it proves EMPTY, or None.  Recognised forms (and their negations on
+    the other edge): g_queue_is_empty(q); g_queue_get_length(q) == 0; q->length == 0; g_queue_peek_head(q) == NULL."""
+    def queue_of_value(o, truth):
+        """o is an integer/pointer/bool operand; truth: 'o is non-zero' holds (True) or 'o is zero' holds (False) -> field proven empty"""
+        o = rules.resolve_local(fn, rules.strip_casts(fn, o))
+        i = fn.resolve(o)
+        if i is None:
+            return None
+        if i.op == "call":
+            if i.callee == "g_queue_is_empty" and truth:
+                return queue_field_of_call(P, fn, i)
+            if i.callee in ("g_queue_get_length", "g_queue_peek_head", "g_queue_peek_tail") and not truth:
+                return queue_field_of_call(P, fn, i)
+            return None
+        if i.op == "load" and not truth:
+            # q->length / q->head, q loaded from the node-state field
+            ch = rules.field_chain(P, fn, i["ptr"])
+            if ch and ch[-1] in ("_GQueue.length", "_GQueue.head", "GQueue.length", "GQueue.head"):
+                g = fn.resolve(i["ptr"])
+                while g is not None and g.op in ("getelementptr", "bitcast"):
+                    g = fn.resolve(g["base"] if g.op == "getelementptr" else g["a"])
+                if g is not None and g.op == "load":
+                    return rules.field_path_of_ptr(P, fn, g["ptr"])
+            return None
+        if i.op == "icmp":
+            cb = rules.const_of(fn, i["b"])
+            isnull = i["b"].get("k") == "null"
+            if cb == 0 or isnull:
+                if i["pred"] == "eq":
+                    return queue_of_value(i["a"], not truth)
+                if i["pred"] in ("ne", "ugt", "sgt"):
+                    return queue_of_value(i["a"], truth)
+            if cb == 1 and i["pred"] in ("ult", "slt"):
+                return queue_of_value(i["a"], not truth)
+            if cb == 1 and i["pred"] in ("uge", "sge"):
+                return queue_of_value(i["a"], truth)
+            return None
+        if i.op == "xor" and rules.const_of(fn, i["b"]) in (1, -1):
+            return queue_of_value(i["a"], not truth)
+        return None
+    return queue_of_value(guard["cond"], taken)
+
+
 class Roles:
     def __init__(self, w):
         P = self.P = w.P
